@@ -420,7 +420,7 @@ def FormOut (cfg : Cfg) (x ts : Nat) (B : Int) (st : NetStation) (n' : Net) (c :
   (c.s.st = .useToken ⟨now, none⟩ false ∧ c.tx = some (selfToken ts) ∧ RingView [ts] ts c.s.ring ∧ Inv c.s c.apps ∧
      n'.stations[x]? = some (upSt st c)) ∨
   (∃ (stage' : SStage) (l' : Int), Solo cfg n' x (upSt st c) l' ∧ stage'.ok c.s ∧ RingView [ts] ts c.s.ring ∧ c.s.p = st.s.p ∧
-     (c.tx = none ∨ c.tx = some (selfToken ts) ∨ ∃ a, a ≠ ts ∧ a < st.s.p.hsa ∧ c.tx = some (statusRequestBytes a ts)) ∧
+     (c.tx = none ∨ c.tx = some (selfToken ts) ∨ ∃ a, a ≠ ts ∧ a < st.s.p.hsa ∧ c.tx = some (statusRequestBytes a ts) ∧ stage' = .await a ∧ l' = now + (cfg.b66 : Nat)) ∧
      max now (l' + ((stage'.wait cfg : Nat) : Int)) + ((stage'.rest cfg ts st.s.p.hsa : Nat) : Int) ≤ B ∧
      (c.tx = none → l' = l0 ∧ max now (l' + ((stage'.wait cfg : Nat) : Int)) + ((stage'.slack cfg : Nat) : Int) ≤ Φ) ∧
      (c.tx ≠ none → now ≤ l'))
@@ -532,7 +532,7 @@ theorem form_step {cfg : Cfg} {n : Net} {x : Nat} {st : NetStation} {l : Int} (h
           omega)
       refine ⟨n', hp, hseen, ?_⟩
       unfold FormOut
-      refine Or.inr ⟨.await a, now + (cfg.b66 : Nat), hS, ⟨rfl, rfl⟩, hv, rfl, .inr (.inr ⟨a, hne, ha, rfl⟩), ?_,
+      refine Or.inr ⟨.await a, now + (cfg.b66 : Nat), hS, ⟨rfl, rfl⟩, hv, rfl, .inr (.inr ⟨a, hne, ha, rfl, rfl, rfl⟩), ?_,
         (fun h => by cases h), (fun _ => by omega)⟩
       simp only [SStage.wait, SStage.rest]
       rw [← hrem, Nat.add_mul, Nat.one_mul] at hBud
@@ -711,7 +711,7 @@ theorem solo_forms {cfg : Cfg} (hok : cfg.Ok) (x ts hsa : Nat) (B : Int) :
     refine ⟨n', c, hp, by omega, ?_, ?_⟩
     · rcases hout with ⟨-, b, -⟩ | ⟨_, _, -, -, -, -, b, -, -, -⟩
       · exact .inr (.inl b)
-      · rcases b with b | b | ⟨a, b1, -, b3⟩
+      · rcases b with b | b | ⟨a, b1, -, b3, -⟩
         · exact .inl b
         · exact .inr (.inl b)
         · exact .inr (.inr ⟨a, b1, b3⟩)
